@@ -59,6 +59,7 @@ impl Default for ConfOpts {
     }
 }
 
+#[derive(Clone)]
 pub struct ConfStream {
     pub stream: Stream,
     pub metas: Vec<LinkMeta>,
@@ -759,11 +760,13 @@ pub struct Population {
 }
 
 pub fn gen_population(t: &mut Tape, valid_layers: bool) -> Population {
-    let nl = 1 + t.below(5);
-    let nf = 1 + t.below(5);
+    // usually a handful of links / FEE ids; now and then many (every link id gets its own validator thread)
+    let many = t.chance(1, 14);
+    let nl = if many { 20 + t.below(200) } else { 1 + t.below(5) };
+    let nf = if many { 10 + t.below(60) } else { 1 + t.below(5) };
     let mut links = vec![];
     for _ in 0..nl {
-        links.push(if t.chance(1, 4) { t.u8() } else { t.below(16) as u8 });
+        links.push(if many { (links.len() as u8).wrapping_mul(7).wrapping_add(3) } else if t.chance(1, 4) { t.u8() } else { t.below(16) as u8 });
     }
     let mut fees = vec![];
     for _ in 0..nf {
@@ -783,6 +786,9 @@ pub fn gen_population(t: &mut Tape, valid_layers: bool) -> Population {
 pub fn gen_frame_stream(t: &mut Tape, o: &FrameOpts) -> (Stream, Vec<String>) {
     let mut labels = vec![];
     let pop = gen_population(t, o.valid_layers);
+    if pop.links.len() >= 20 {
+        labels.push("population:many_links".into());
+    }
     let n = match t.weighted(&[1, 2, 8, 2, 1, 1, 1]) {
         0 => 1,
         1 => 2,
